@@ -7,6 +7,7 @@ NOTE = ("Trusted base: the gosmt executor's Go semantics (engine/*.go), z3 4.8.1
         "bounds are those of the harnesses (see DESIGN.md section of the property); inputs beyond them are outside the claim.")
 # id -> (claimed?, level text, design_ref, extra note / N/A reason)
 CHECKS = {
+ "C03": ("Reduced claim decided on the real connection handlers: for arbitrary bytes after the handshake (every length up to 30), for requests whose handler faults on a hostile field, and for arbitrary 16-byte transfer preambles with a pending transfer, no panic escapes the handler, and the user registry, connection counter and in-progress transfer counters are exactly what the well-behaved client alone accounts for; the departure of the faulting client is announced once.", "3/C03", "Timeliness under load, memory exhaustion, goroutine pile-up, the rate limiter and the unlocked limiter map in Serve are outside the claim (they need a running process); panics inside encoders/decoders are reported by the C01/C02 harnesses as uncaught_panic."),
  "C08": ("Reply size fields for all file sizes < 2^32 and all resume offsets 0<=k<=size (plain, resumed, preview); the real DownloadHandler stream = consistent header, then exactly data[k:], then (unless resuming) an empty resource section, for all contents up to the bound.", "3/C08", "File store and *os.File reads are harness stubs; data up to 600 bytes quick / 9000 thorough (covers bufio refills); name fixed; stored info/resource forks outside this revision's claim."),
  "C09": ("One upload attempt of the real UploadHandler from an arbitrary state of the target name with the connection dying at a symbolic offset of the stream: final name appears iff everything arrived, partial file = old prefix + bytes received, existing file never touched; resume offset reported = partial length for all sizes.", "3/C09", "os calls replaced by an in-harness namespace model (O_APPEND write = append, rename atomic); quick tier: cut at every data offset and one offset inside each header part, thorough: any offset."),
  "C10": ("Real DownloadFolderHandler / UploadFolderHandler over a scripted client with symbolic choices (send/resume k/skip; file absent/partial/complete; connection cut): item headers, size prefixes and bytes compared with the reference; announced count = headers sent; dot-files never sent.", "3/C10", "filepath.Walk replaced by a lexical walk over a fixed small tree (1 file, 1 dot-file, 1 sub-folder); one file item per upload; deeper trees outside the claim."),
